@@ -148,9 +148,15 @@ def main():
         return run.finish()
     if "--replay" in sys.argv:
         d = json.load(open(sys.argv[sys.argv.index("--replay") + 1]))
+        if "tv" not in d["data"]:            # a sweep finding (no TLC vector): re-run the sweep
+            from harness.checks import c07 as _c07
+            _c07.near_axis_sweep(run, _c07.FnCache())
+            return run.finish()
         tv = d["data"]["tv"]
         replay_group(run, cache, tv["op"], group_key(tv["a"][0]), [tv])
         return run.finish()
+    from harness.checks import c07 as _c07       # from_Matrix is a right inverse of to_Matrix also where a quaternion component is tiny
+    _c07.near_axis_sweep(run, _c07.FnCache())
     res = run_tlc("LieCalc.tla", f"LieCalc_{tier}.cfg", workdir=run.workdir, dump=True)
     run.add_tlc("LieCalc", res)
     groups = {}
